@@ -123,6 +123,13 @@ def transfer(it, name, args, ty):
         w = _fw(n)
         ls = _lanes(args[0], w)
         return tm.zext(tm.concat([tm.slice_(x, w - 1, 1) for x in ls]), 32)
+    if n in ('sse41.ptestz', 'sse41.ptestc', 'sse41.ptestnzc', 'avx.ptestz.256', 'avx.ptestc.256', 'avx.ptestnzc.256'):
+        # PTEST: ZF = ((a AND b) == 0), CF = ((NOT a AND b) == 0); testz returns ZF, testc CF, testnzc !ZF && !CF
+        a, b = args[0], args[1]
+        zf = tm.icmp('eq', tm.and_(a, b), tm.zeros(a.w))
+        cf = tm.icmp('eq', tm.and_(tm.not_(a), b), tm.zeros(a.w))
+        r = zf if 'ptestz' in n else cf if 'ptestc' in n else tm.and_(tm.not_(zf), tm.not_(cf))
+        return tm.zext(r, 32)
     if n == 'sse2.pmovmskb.128':
         ls = _lanes(args[0], 8)
         return tm.zext(tm.concat([tm.slice_(x, 7, 1) for x in ls]), 32)
